@@ -126,7 +126,9 @@ def _isolation_native(o, variant_first, kind, used, b):
     return True
 
 
-LINES = ["x", "  y", "{% if 1 %}", "  {% endif %}", "{% set q = 1 %}", "    {% for i in [1] %}", "{% endfor %}", "", "z {{ 1 }}"]
+LINES = ["x", "  y", "{% if 1 %}", "  {% endif %}", "{% set q = 1 %}", "    {% for i in [1] %}", "{% endfor %}", "", "z {{ 1 }}",
+         # a tag whose expression is wrapped over two lines inside brackets: a line statement only ends at a line break outside brackets
+         "  {% for i in [1,\n            2] %}", "{% set q = {'a': (1,\n  2)} %}"]
 CLINES = ["{# c #}", "  {# c #}"]
 ENV_BLOCK = Environment(trim_blocks=True, lstrip_blocks=True)
 ENV_LINE = Environment(trim_blocks=True, lstrip_blocks=True, line_statement_prefix="#", line_comment_prefix="##")
@@ -216,6 +218,6 @@ def conditions(tier, seed):
                     bounds="12 lexer options x {base first, variant first} x {Environment, overlay, Template()} x {first used before, not used} x 2 base configurations"))
     ml = 4 if th else 3
     out.append(Cond("line statements vs block tags", "lines_ok", mode="B", param={"maxl": ml}, timeout=to * 2,
-                    witnesses=[[[0, 2, 1], True], [[5, 8, 6], False], [[4, 0], True]],
+                    witnesses=[[[0, 2, 1], True], [[5, 8, 6], False], [[4, 0], True], [[9, 8, 6], True], [[10, 0], False]],
                     bounds=f"programs of 1..{ml} lines from {LINES!r}, with/without final newline"))
     return out
